@@ -435,3 +435,19 @@ def crosscheck(qual, seed, n, registry):
         if not same:
             bad.append(dict(inputs=inp, engine=repr(got)[:200], cpython=repr(want)[:200]))
     return cases, bad
+
+
+def run_witness(w, bad_expr):
+    """call the real function named in a known-finding witness; returns (still_bad, repr of the result)"""
+    import math
+    import numpy as np
+    f = real_function(w['call'])
+    args = [np.array(a, dtype=float) if i in w.get('arrays', []) else a for i, a in enumerate(w.get('args', []))]
+    with warnings.catch_warnings():
+        warnings.simplefilter('ignore')
+        try:
+            result = f(*args, **w.get('kwargs', {}))
+        except Exception as ex:
+            result = ex
+    bad = bool(eval(bad_expr, {'result': result, 'math': math, 'np': np, 'isinstance': isinstance, 'Exception': Exception}))
+    return bad, repr(result)
